@@ -739,22 +739,34 @@ func c17Tables(h H) {
 
 // readerFields: the fields of the limiting reader by role (their names are not part of the contract).
 func readerFields(t types.Type) (n, err, src, w string) {
-	st, ok := underlying(t).(*types.Struct)
-	if !ok {
-		return
-	}
-	for i := 0; i < st.NumFields(); i++ {
-		f := st.Field(i)
-		switch ft := f.Type().String(); {
-		case ft == "int64":
-			n = f.Name()
-		case ft == "error":
-			err = f.Name()
-		case ft == "io.ReadCloser" || ft == "io.Reader":
-			src = f.Name()
-		case ft == "net/http.ResponseWriter":
-			w = f.Name()
+	// leaf paths, descending into nested struct values (the accounting may live in a struct of its own)
+	var walk func(t types.Type, prefix string, depth int)
+	walk = func(t types.Type, prefix string, depth int) {
+		st, ok := underlying(t).(*types.Struct)
+		if !ok || depth > 3 {
+			return
+		}
+		for i := 0; i < st.NumFields(); i++ {
+			f := st.Field(i)
+			p := joinPath(prefix, f.Name())
+			switch ft := f.Type().String(); {
+			case ft == "int64":
+				n = p
+			case ft == "error":
+				err = p
+			case ft == "io.ReadCloser" || ft == "io.Reader":
+				src = p
+			case ft == "net/http.ResponseWriter":
+				w = p
+			default:
+				if _, isStruct := underlying(f.Type()).(*types.Struct); isStruct {
+					if _, named := f.Type().(*types.Named); named {
+						walk(f.Type(), p, depth+1)
+					}
+				}
+			}
 		}
 	}
+	walk(t, "", 0)
 	return
 }
